@@ -712,7 +712,10 @@ def clean_values(values: ValuesLike, count: int) -> tuple[int, ...]:
         parsed_values = [0] * count
 
         for key, value in values.items():
-            parsed_values[key] += value
+            if parsed_values[key]:
+                parsed_values[key] += value
+            else:
+                parsed_values[key] = value
 
         values = tuple(parsed_values)
     elif isinstance(values, Iterable):
